@@ -73,7 +73,9 @@ func (t *Type) AddAttr(attr Attr) error {
 		return fmt.Errorf("jsonapi: attribute name is empty")
 	}
 
-	if GetAttrTypeString(attr.Type, attr.Nullable) == "" {
+	// The nullable flag is left out: GetAttrTypeString returns "*" for an
+	// invalid type that is nullable.
+	if GetAttrTypeString(attr.Type, false) == "" {
 		return fmt.Errorf("jsonapi: attribute type is invalid")
 	}
 
